@@ -249,8 +249,10 @@ def run(pid, tier):
     sys.setrecursionlimit(2500)
     m = 150 if tier == "quick" else 3000
     js = {"json_in_scope": 0}
-    for i in range(m):
-        d = gen_recursive_doc(rng) if i % 2 else c01.gen_doc(rng, allow_anyof=True)
+    listed = [k["example"] for k in ck.kf.get("known", []) if k.get("property") == pid and isinstance(k.get("example"), dict)]
+    for i in range(-len(listed), m):
+        # the examples of the listed findings first (each is reported as KNOWN-FINDING as long as it still fails)
+        d = listed[i + len(listed)] if i < 0 else gen_recursive_doc(rng) if i % 2 else c01.gen_doc(rng, allow_anyof=True)
         if isinstance(d, bool) or not J.metaschema_ok(d) or '"$ref"' not in json.dumps(d):
             continue
         ck.count("js" + json.dumps(d), True)
